@@ -47,4 +47,25 @@ def wsReadLen (b1 : UInt8) (rest : Bytes) : Option (Nat × Bytes) :=
      if 9223372036854775808 ≤ n then none else some (n, rest.drop 8))
   else some (l, rest)
 
+/-- One complete frame as `DoInputImplementation` takes it apart: the two fixed header bytes (reserved bits must be
+    clear; a server insists on the mask bit, a client on its absence), the length field in its 7-bit / 16-bit / 64-bit
+    form (`_headerSize` selection; an 8-byte length above 10 MB or with the top bit set is refused), the 4 mask bytes,
+    and the unmasking loop.  Result `(opcode, FIN, payload, rest)`; `none` = incomplete or refused.
+    `expectMask` = the receiver is a server. -/
+def wsDecodeFrame (expectMask : Bool) (b : Bytes) : Option (Nat × Bool × Bytes × Bytes) :=
+  match b with
+  | b0 :: b1 :: r =>
+    if b0.toNat / 16 % 8 ≠ 0 then none
+    else if decide (128 ≤ b1.toNat) ≠ expectMask then none
+    else
+      match wsReadLen b1 r with
+      | none => none
+      | some (n, r) =>
+        if b1.toNat % 128 = 127 ∧ 10485760 < n then none
+        else if expectMask then
+          (if r.length < 4 + n then none
+           else some (b0.toNat % 16, decide (128 ≤ b0.toNat), wsMask (r.take 4) 0 ((r.drop 4).take n), (r.drop 4).drop n))
+        else (if r.length < n then none else some (b0.toNat % 16, decide (128 ≤ b0.toNat), r.take n, r.drop n))
+  | _ => none
+
 end Muscle.Gateway
